@@ -275,6 +275,9 @@ def r4(ctx, fs):
             ctx.finding(rid, f.id, k, 'theory::backtrack_analyze_and_backjump: "%s" does not hold' % k, loc=f.loc)
 
 
+RESTS_ON = ['C07', 'C09', 'C10', 'C11', 'C12', 'C13', 'C14', 'C15', 'C16', 'C17']
+
+
 def run(ctx):
     fs = ctx.facts('F')
     r1(ctx, fs)
@@ -287,3 +290,7 @@ def run(ctx):
             r1(ctx, mfs)        # the #ifdef arms of solve() / the h_2 heuristic throw too
         ctx.cfg = 'F'
     r4(ctx, fs)
+    # the end-to-end property rests on the structural clauses of the SAT core, the theories and the language front end: a problem is only rightly called unsolvable if no encoding is stronger than what was written
+    for dep in RESTS_ON:
+        ctx.include(dep)
+    ctx.note('rule packs of the properties this one rests on were evaluated as part of this check: ' + ', '.join(RESTS_ON))
